@@ -234,27 +234,31 @@ def operators(run):
     run.replay_for("utils.LogRepFloat", _replay("LogRepFloat"))
     BIN = {"+": ast.Add, "-": ast.Sub, "*": ast.Mult, "/": ast.Div}
     CMP = {"<": ast.Lt, "<=": ast.LtE, ">": ast.Gt, ">=": ast.GtE, "==": ast.Eq, "!=": ast.NotEq}
-    KINDS = ["lrf", "zero", "num"]
+    KINDS = ["lrf", "zero", "num", "num0", "numneg"]  # plain numbers: positive / exactly zero / negative (the last two in comparisons only)
 
     def mk(ctx, ex, cls, kind, nm):
         if kind == "lrf":
             return ex.call(cls, [], {"log_val": finite(ctx, nm)})
         if kind == "zero":
             return ex.call(cls, [0.0], {})
+        if kind == "num0":
+            return 0.0 if ctx.choose(2, "zero-literal") else 0
         x = finite(ctx, nm)
-        ctx.assume(x > 0)
+        ctx.assume(x > 0 if kind == "num" else x < 0)
         return x
 
-    roots = [[i, j] for i in range(3) for j in range(3)]
+    roots = [[i, j] for i in range(5) for j in range(5)]
 
     def harness(ctx):
-        ka, kb = KINDS[ctx.choose(3, "ka")], KINDS[ctx.choose(3, "kb")]
-        if ka == "num" and kb == "num":
+        ka, kb = KINDS[ctx.choose(5, "ka")], KINDS[ctx.choose(5, "kb")]
+        if ka.startswith("num") and kb.startswith("num"):
             return
         mod = it.module(MOD)
         ex = Exec(it, ctx, mod, mod.env, "harness")
         cls = mod.resolve("LogRepFloat", ctx)
         opi = ctx.choose(len(BIN) + len(CMP) + 1, "op")
+        if (ka in ("num0", "numneg") or kb in ("num0", "numneg")) and not (len(BIN) <= opi < len(BIN) + len(CMP)):
+            return
         a, b = mk(ctx, ex, cls, ka, "a"), mk(ctx, ex, cls, kb, "b")
         ra, rb = R(ctx, a), R(ctx, b)
         names = list(BIN) + list(CMP) + ["+="]
